@@ -261,8 +261,9 @@ func checkConcurrent(c ConcCase) (string, string) {
 	e := newEnv(Case{Size: c.Size, Name: "f", Store: "rw", NoSeek: c.NoSeek})
 	e.src.gating = true
 	type result struct {
-		f   hackpadfs.File
-		err error
+		data []byte
+		err  error
+		rerr error
 	}
 	results := make([]result, c.Openers)
 	var wg sync.WaitGroup
@@ -272,7 +273,12 @@ func checkConcurrent(c ConcCase) (string, string) {
 		go func() {
 			defer wg.Done()
 			f, err := e.cfs.Open("f")
-			results[i] = result{f, err}
+			results[i] = result{err: err}
+			if err == nil {
+				// read at once, while another opener's copy may still be parked: a handle on a half-filled cache file shows now
+				results[i].data, results[i].rerr = io.ReadAll(f)
+				_ = f.Close()
+			}
 		}()
 	}
 	done := make(chan struct{})
@@ -304,18 +310,12 @@ loop:
 			return base + ":hang", "concurrent opens did not return"
 		}
 	}
-	// reads by the callers are not gated
-	e.src.mu.Lock()
-	e.src.gating = false
-	e.src.mu.Unlock()
 	for i, r := range results {
 		if r.err != nil {
 			continue
 		}
-		data, err := io.ReadAll(r.f)
-		_ = r.f.Close()
-		if err != nil || !bytes.Equal(data, e.want) {
-			return base + ":partial", fmt.Sprintf("opener %d of %d got %d of %d bytes (%v)", i, c.Openers, len(data), len(e.want), err)
+		if r.rerr != nil || !bytes.Equal(r.data, e.want) {
+			return base + ":partial", fmt.Sprintf("opener %d of %d got %d of %d bytes (%v)", i, c.Openers, len(r.data), len(e.want), r.rerr)
 		}
 	}
 	return "", ""
